@@ -32,6 +32,16 @@ CHECKS = {
     note="Inside-ness is judged as the library's validation computes it (f64 sum, ties-to-even, modelled exactly in Wide!DyRound53) plus at most one rounding error of the exact sum. "
          "Centerings are dyadic rationals; NaN excluded by the property.",
     design="4/C15", technique=TECH + " with exact dyadic arithmetic; Apalache lemma"),
+ "C06": dict(
+    text="Alpha.tla states the property (Mul = round(c*a/max), Div in {floor,ceil}(c*max/a) saturated, a=0 -> 0) and the portable algorithms; TLC checks "
+         "algorithm = property for all 65,536 8-bit pairs, Apalache for all 2^32 16-bit pairs (and exhibits the u64 overflow at alpha = 1 as an expected "
+         "counter-example). Implementation: every 8-bit pair in every lane position of 15 (quick) / 40 (thorough) row widths through 3 back-ends x "
+         "{two-image,in-place} x {dynamic,typed} is projected to (colour,alpha)->output tables and judged entry by entry by TLC; 16-bit lattice^2 + seeded pairs "
+         "(incl. colour > alpha, alpha = 1) are judged with Wide arithmetic, float images with exact dyadic arithmetic (product correctly rounded; quotient "
+         "within 2^-22); alpha lane bit-identical; all variants of one input must agree (16-bit divide +-1, float divide <= 2 ulp); the 7 alpha-less "
+         "types and size mismatches must be rejected with the destination untouched; run on release and debug-assertion builds.",
+    note="All 2^32 16-bit pairs are covered for the specified algorithm (lemmas), the code is executed on lattice^2 + seeded pairs only. NEON/WASM kernels cannot run here.",
+    design="4/C06", technique=TECH + "; Apalache lemmas for all 16-bit pairs"),
 }
 NA_REASON = "check not built yet (work in progress; DESIGN.md section 7 lists the build order)"
 
